@@ -173,6 +173,9 @@ func (fx *FuncExec) scanMods(fn *ssa.Function, depth int, seen map[*ssa.Function
 					}
 				case "contract":
 					k := t.contract
+					for _, gs := range k.GhostSets {
+						fx.modKeys["ghost:"+gs.Ghost] = true
+					}
 					if !k.HasMod {
 						fx.modAll = true
 						continue
@@ -529,6 +532,7 @@ func (x *Exec) applyContract(st *State, ins ssa.Instruction, t callTarget, c *ss
 		env["result"] = res.Fs[0]
 	}
 	sc2 := x.specCtx(st, st.heap, pre, env)
+	x.applyGhostSets(st, k, sc2)
 	for _, en := range k.Ensures {
 		st.assume(sc2.evalHyp(en.E))
 	}
@@ -682,6 +686,8 @@ func (x *Exec) havocElems(st *State, sv Value, lo, hi string) {
 
 func ghostSort(g *GhostDef) (string, int) {
 	switch g.Res {
+	case "reals":
+		return "(Array Int Real)", 1
 	case "int":
 		return "Int", 1
 	case "bool":
@@ -924,4 +930,37 @@ func (x *Exec) dynPrefixesStatic(k *FuncContract, t callTarget, c *ssa.CallCommo
 		return nil
 	}
 	return x.eng.implPrefixes(ty)
+}
+
+// applyGhostSets performs the ghost assignments of contract k in the context sc (whose `old`
+// heap is the state before the call / at function entry).
+func (x *Exec) applyGhostSets(st *State, k *FuncContract, sc *SpecCtx) {
+	if len(k.GhostSets) == 0 {
+		return
+	}
+	type upd struct {
+		key, idx, val, sort string
+	}
+	var ups []upd
+	for _, gs := range k.GhostSets {
+		gd := x.eng.cs.Ghosts[gs.Ghost]
+		if gd == nil {
+			st.unsupported("ghostset of unknown ghost " + gs.Ghost)
+		}
+		a := sc.eval(gs.Arg)
+		if a.K == VAddr {
+			a = st.addrToRef(a)
+		}
+		v := sc.eval(gs.Val)
+		sort, _ := ghostSort(gd)
+		t := v.T
+		if sort == "Real" && v.K == VInt {
+			t = "(to_real " + t + ")"
+		}
+		ups = append(ups, upd{"ghost:" + gd.Name, a.T, t, sort})
+	}
+	for _, u := range ups {
+		h := st.heapTermIn(st.heap, u.key, 1, u.sort)
+		st.heapSet(u.key, fmt.Sprintf("(store %s %s %s)", h, u.idx, u.val))
+	}
 }
